@@ -77,6 +77,13 @@ func zzH_C08_cosim() {
 	for i := 0; i < skipped; i++ {
 		verifAssert(dst[i] == src[i], "skipped bytes that were not proven equal")
 	}
+	// between the resume exchange and the data phase the sender may sample the file to decide about compression (files
+	// of at least three sample blocks, compression "auto"); the sampling must leave the reader where the exchange put it
+	if verifBound("PROBE") == 1 && remaining >= 3*compressedBlockSize {
+		_, perr := isCompressionProfitable(file)
+		verifAssert(perr == nil, "compressibility probe failed")
+		verifReach("probed")
+	}
 	// the data phase: the rest of the source goes through the receiver's handle
 	rest := make([]byte, remaining)
 	n, _ := io.ReadFull(file, rest)
